@@ -46,7 +46,7 @@ Example ex_success :
     In (0%nat, [Some (mkTV DText Validated 12)], []) runs.
 Proof. eexists. eexists. split; [vm_compute; reflexivity|]. split; [reflexivity|]. cbn. auto. Qed.
 
-(* an external input labelled above the port's integrity is admitted as it is *)
+(* an external input labelled above the port's integrity is accepted as it is *)
 Example ex_external_higher :
   fst (execute [snk] [] (hs [HSNone]) true [(0%nat, [(0%nat, Lab (mkTV DText Trusted 5))])])
   = Report [0%nat] [(0%nat, [Some (mkTV DText Trusted 5)], [])].
